@@ -1,6 +1,7 @@
 // Engine binary for the system-level checks (whole Teakra facade): C14 ...
 #include "c06_slices.h"
 #include "c07_irq.h"
+#include "c11_views.h"
 #include "c12_mmio.h"
 #include "c14_apbp.h"
 #include "c17_reset.h"
@@ -47,6 +48,8 @@ int main(int argc, char** argv) {
             return c12::RunReplay(args.replay, res);
         if (args.replay.rfind("c17", 0) == 0)
             return c17::RunReplay(args.replay, res);
+        if (args.replay.rfind("c11", 0) == 0)
+            return c11::RunReplay(args.replay, res);
         if (args.replay.rfind("c14", 0) == 0)
             return c14::RunReplay(args.replay, res);
         return 2;
@@ -59,6 +62,8 @@ int main(int argc, char** argv) {
         c12::Run(args, res);
     } else if (args.sub == "c17") {
         c17::Run(args, res);
+    } else if (args.sub == "c11") {
+        c11::Run(args, res);
     } else if (args.sub == "c14") {
         c14::Run(args, res);
     } else {
